@@ -1796,3 +1796,8 @@ mod tests {
         )
     }
 }
+
+// verification hook: Kani harnesses kept outside the repository, compiled only by `cargo kani`
+#[cfg(kani)]
+#[path = "/verif/kani/inline/validator.rs"]
+mod verif_kani;
